@@ -7,7 +7,7 @@ From Coq Require Import List Arith ZArith Bool.
 Import ListNotations.
 From Acts.Gen Require Import GenState.
 From Acts.Model Require Import Engine Tree.
-From Acts.Proofs Require Import EngineLemmas Findings.
+From Acts.Proofs Require Import EngineLemmas Findings LogInv C02Ops.
 
 (* full statement (false): forall w ops e t s, go w ops = Some e -> is_completed s = true -> msgs e t s <= 1 *)
 Theorem C08_once_refuted : exists w ops e t, go w ops = Some e /\ msgs e t SCompleted = 2.
@@ -19,5 +19,21 @@ Theorem C08_partial_gate : forall e i, msg_allowed e i = true ->
   st e i <> SPending /\ st e i <> SRunning /\ t_silent (tk e i) = false.
 Proof. exact msg_gate. Qed.
 
+(* in every run (any node table, operations, schedule): a message reports the state its task has at the
+   moment it is sent -- the state the task's last write gave it -- and that state is neither pending nor running *)
+Theorem C08_message_reports_current_state :
+  forall ns c0 ops l1 l2 t s ins outs,
+    trace (run ns c0 ops) = l1 ++ EMsg t s ins outs :: l2 -> s = cur c_none l1 t /\ s <> SPending /\ s <> SRunning.
+Proof. exact message_reports_current. Qed.
+(* non-vacuity: the created and the completed message of an interrupt act *)
+Example C08_example :
+  let ns := [ Build_node 0 KWorkflow 0 [(ONormal, 1)] None None false [] dspec [] [] [] [] [] [] false;
+              Build_node 1 KStep 1 [(ONormal, 2)] None None false [] dspec [] [] [] [] [] [] false;
+              Build_node 2 KAct 2 [] None None false [] dspec [] [] [] [] [] [] false ] in
+  let e := run ns 1000 [ODrain; OAct 2 ANext []; ODrain] in
+  existsb (fun x => match x with EMsg 2 SInterrupt _ _ => true | _ => false end) (trace e) = true /\
+  existsb (fun x => match x with EMsg 2 SCompleted _ _ => true | _ => false end) (trace e) = true.
+Proof. vm_compute. auto. Qed.
 Print Assumptions C08_once_refuted.
+Print Assumptions C08_message_reports_current_state.
 Print Assumptions C08_partial_gate.
